@@ -757,7 +757,7 @@ func run(c *lib.Ctx) {
 	c.Assume("one LocalDB is driven by one goroutine (the property is about sequential histories)",
 		"nested Begin is outside the statement ('an optional open transaction') and is not generated",
 		"the blockchain module's EventLocal* handlers are thin pass-throughs to the same LocalDB methods and are not driven here")
-	n := c.N(400, 12000)
+	n := c.N(1000, 25000)
 	maxOps := 120
 	if !c.Quick() {
 		maxOps = 200
